@@ -2,6 +2,8 @@ package s3db
 
 // C04 — a crash at any point of a commit leaves old or new contents.
 
+import "time"
+
 // vC04Prefix builds the committed prefix: shape 0 = empty bucket, 1 = one
 // version with keys 1..3, 2 = one version with keys 1..5 (depth 2 with
 // entries_per_node 2), 3 = two unmerged versions (writers A: 1,2  B: 3,4).
@@ -126,5 +128,75 @@ func VerifH_C04_commit() {
 	got3, err := vFreshRows(bkt)
 	symAssert(err == nil, "after-recovery-readable")
 	symAssert(vRowsEq(got3, got), "after-recovery-same-rows")
+	symReach("end")
+}
+
+// vC04VacuumSetup: a table with live rows and an old deleted row, all committed.
+func vC04VacuumSetup(bkt *vBucket, shape int) *VirtualTable {
+	w := vMustOpen(bkt.client(1), vTableOpts{bf: 2}, 1000)
+	must := func(err error) {
+		if err != nil {
+			panic(err)
+		}
+	}
+	must(vIns(w, 2000, int64(1), int64(10), nil))
+	must(w.Commit(vCtx))
+	must(vIns(w, 2100, int64(2), int64(20), nil))
+	must(w.Commit(vCtx))
+	if shape >= 1 {
+		must(w.Delete(vAt(2200), int64(2)))
+		must(w.Commit(vCtx))
+	}
+	if shape >= 2 {
+		must(vIns(w, 2300, int64(3), int64(30), nil))
+		must(vIns(w, 2301, int64(4), int64(40), nil))
+		must(w.Commit(vCtx))
+	}
+	return w
+}
+
+// H04 (vacuum): a crash before any mutating request of s3db_vacuum leaves the
+// table readable with exactly the rows it had (vacuum never changes contents,
+// so old == new here).
+func VerifH_C04_vacuum() {
+	shape := symChoice("shape", 3)
+	cutKind := symChoice("cutoff", 3)
+	cut := []int64{1500, 2250, 5000}[cutKind]
+	// reference run: number of mutating requests vacuum performs
+	ref := vNewBucket()
+	rw := vC04VacuumSetup(ref, shape)
+	tables["t"] = rw
+	pre, err := vScan(rw)
+	symAssert(err == nil, "pre-scan-ok")
+	m0 := ref.muts
+	symAssert(Vacuum(vCtx, "t", time.Unix(0, cut)) == nil, "reference-vacuum-ok")
+	total := ref.muts - m0
+	symObserve("mutating_requests", total)
+	// the versions this vacuum keeps (the ones it removes may be half-removed
+	// after a crash: their nodes go first, their version objects last)
+	kept := map[string]bool{}
+	for _, n := range ref.names(vPrefix + "/root/") {
+		kept[n] = true
+	}
+
+	bkt := vNewBucket()
+	w := vC04VacuumSetup(bkt, shape)
+	tables["t"] = w
+	k := symInt("crash")
+	symAssume(k >= 0)
+	symAssume(k <= total)
+	bkt.crashOn, bkt.crashAt = true, bkt.muts+k
+	verr := Vacuum(vCtx, "t", time.Unix(0, cut))
+	bkt.crashOn, bkt.dead = false, false
+	symObserve("vacuum_acked", verr == nil)
+	got, err := vFreshRows(bkt)
+	symAssert(err == nil, "recovery-readonly-open-succeeds")
+	symAssert(vRowsEq(got, pre), "rows-intact-after-crash-in-vacuum")
+	rw2, err := vOpen(bkt.client(2), vTableOpts{bf: 2}, 9500)
+	symAssert(err == nil, "recovery-writable-open-succeeds")
+	rows2, err := vScan(rw2)
+	symAssert(err == nil, "recovery-writable-scan-ok")
+	symAssert(vRowsEq(rows2, pre), "recovery-open-shows-same-rows")
+	symAssert(vVersionsReadable(bkt, kept), "kept-versions-readable-after-crash")
 	symReach("end")
 }
